@@ -109,7 +109,7 @@ EXTRA = {
  'C15': "Also: FindFiles, getOverlappingInputs and FindReaders visit every candidate file (no break/return out of the scan other than a failing exit). Snapshot.Load leaves its scan of the selected files only with an error; FixedOffsetDecoder.GetBlock accepts an empty range (a key stored with an empty value).",
  'C16': "Also: a family group is the rows inside the family range of the group's first row, tested with TimeRange.Contains against the range built from that same timestamp, and handed out with that timestamp's family time; the line-protocol parser resets its row builder on every path from the loop test to the next line. The stored name hash is computed from exactly the namespace and name strings that are written into the row (after enrichment and sanitizing); the broker's write interval is element 0 of the very list that was sorted before.",
  'C17': "Also: no parser function takes a list from a helper that fills it inside a range over a map (e.g. strutil.DeDupStringSlice). A lexer / parser taken from the pool is put back only after the last step of the parse that uses it (token stream creation, parser.Statement(), tree walk).",
- 'C19': "Also: on the query execution path recover() is called only by the two designated handlers (or a function they defer); planNode.ExecuteWithStats returns the operator's own error and its stats closure does not touch it. A stage that was counted as pending is completed with the error when its Plan()/Execute() panics in executeStage itself (deferred recover -> completeStage(stageID, err) dominating both calls; F21, fixed).",
+ 'C19': "Also: on the query execution path recover() is called only by the two designated handlers (or a function they defer); planNode.ExecuteWithStats returns the operator's own error and its stats closure does not touch it. A stage that was counted as pending is completed with the error when its Plan()/Execute() panics in executeStage itself (deferred recover -> completeStage(stageID, err) dominating both calls; F21, fixed). The task's error is a latch: every store into baseTaskContext.err carries a provably non-nil error or is guarded by err == nil (F22, fixed).",
 }
 
 TECH_EXTRA = {
